@@ -16,6 +16,23 @@ structure HdrAns where
   dur : Nat × Nat
   iss : Nat × Nat × Nat
   call : List Byte
+  orgk : String
+  natl : Bool
+
+/-- the originator class the text implies: the four assigned codes, `WXR` from a station whose
+    callsign *begins* `EC/` is Environment Canada, anything else is unknown -/
+def specOriginator (org call : List Byte) : String :=
+  if org == [80, 69, 80] then "PrimaryEntryPoint"
+  else if org == [67, 73, 86] then "CivilAuthority"
+  else if org == [69, 65, 83] then "BroadcastStation"
+  else if org == [87, 88, 82] then (if call.take 3 == [69, 67, 47] then "EnvironmentCanada" else "NationalWeatherService")
+  else "Unknown"
+
+/-- the national flag the text implies: the only location is `000000` and the event is one of the
+    national activation codes EAN, NIC, NAT, NPT, NST -/
+def specNational (evt : List Byte) (locs : List (List Byte)) : Bool :=
+  locs == [[48, 48, 48, 48, 48, 48]]
+    && [[69, 65, 78], [78, 73, 67], [78, 65, 84], [78, 80, 84], [78, 83, 84]].contains evt
 
 inductive HdrVerdictIn where
   | errNotAscii | errMalformed | errOther (s : String) | ok (a : HdrAns)
@@ -42,6 +59,8 @@ def oracleHdrWith (s : List Byte) (expPar expVot : List Byte → Nat) (ans : Hdr
       else if a.dur != (digitsVal (seg f.purge 0 2), digitsVal (seg f.purge 2 4)) then some "valid duration accessor"
       else if a.iss != (digitsVal (seg f.issue 0 3), digitsVal (seg f.issue 3 5), digitsVal (seg f.issue 5 7)) then some "issue time accessor"
       else if a.call != f.call then some "callsign accessor"
+      else if a.orgk != specOriginator f.org f.call then some "originator() does not classify the ORG field (WXR + callsign beginning EC/ = Environment Canada)"
+      else if a.natl != specNational f.evt f.locs then some "is_national() is not (sole location 000000 and a national event code)"
       else none
 
 def oracleHdr (s : List Byte) (ans : HdrVerdictIn) : Option String :=
